@@ -102,6 +102,9 @@ class QueryWorld:
     def nodes_equal(self, a, b):
         return False
 
+    def on_handler(self, ip, r, handler):
+        pass
+
     def resolve_name(self, ip, name, node):
         if name in ("chain", "Counter", "combinations"):
             return Builtin(name)
